@@ -21,6 +21,7 @@ from ser import Ids, Ser, Unsupported, env_text, ser, deser
 LEAN_MODULE = "Optyx.Props.C02"
 THEOREMS = [
     "Optyx.Props.C02.grad_hasDerivAt",
+    "Optyx.Props.C02.grad_absent",
     "Optyx.Props.C02.rulesIter_eq",
 ]
 ASSUMPTIONS = [
